@@ -53,6 +53,9 @@ class Disk:
         self.reads = []
         self.fired = None
         self.keep_weights_bytes = False
+        # a signal that arrives while file-system event e is in progress (lands inside a checkpoint / weights save)
+        self.signal_at = {int(f["event"]): f for f in plan or [] if f["kind"] == "signal_fs"}
+        self.deliver_signal = None  # set by the incarnation: callable(fault)
         # kill during the signal handler's own checkpoint: offsets counted from the event index at delivery
         self.signal_base = None
         self.kill_after_signal = {}
@@ -88,6 +91,9 @@ class Disk:
             rec.update(extra)
         if getattr(self, "current_ckpt", None) is not None:
             rec["ckpt"] = self.current_ckpt  # the sampler checkpoint (ordinal) this event belongs to
+        sf = self.signal_at.pop(i, None)
+        if sf is not None and self.deliver_signal is not None:
+            self.deliver_signal(sf)  # the handler's own file operations are later events
         inside = self.kill_inside.get(i)
         rel_fault = None
         if self.signal_base is not None:
